@@ -40,7 +40,7 @@ Written by fresh sub-agents under the same conditions as round 1, additionally g
 earlier changes for the same property (from `meta.json`, i.e. written by earlier sub-agents) so that theirs differ in
 mechanism and location. Round 2 (`-3`, `-4`): C01-C05, C08, C14, C18; round 3 (`-3`, `-4`): the other twelve properties;
 rounds 4 (`-5`, `-6`), 5 (`-7`, `-8`) and 6 (the last two of every property; `_rejected/C19-9` was set aside, DESIGN.md
-13.14): all twenty; round 7 (`-11`, `C07-10`): fourteen properties, one change each, five of them still open (DESIGN.md
+13.14): all twenty; round 7 (`-11`, `C07-10`): fourteen properties, one change each (DESIGN.md
 13.15). Each confirmed with `bin/mutverify.py` and stored with
 `bin/mutstore.py`. About half of every round was missed by the check of its own property when it arrived; DESIGN.md 13.9,
 13.11, 13.12, 13.14 and 13.15 list what each miss changed in the machinery. The table shows the state after that strengthening (last
